@@ -90,7 +90,7 @@ META = {
 # The model mirrors the tree as it is.  When the repair proposed in findings/pending/C10-readded-dep-stale-state.md is
 # committed to /repo: set this to True (the model then uses `depChangedRepaired`, for which `C10_changed_repaired`
 # proves the full statement outside the F-C10 path) and turn the `open:` line of readded-dep-stale-state into `fixed:`.
-READDED_FIX_APPLIED = False
+READDED_FIX_APPLIED = True
 
 OBS_PY = 'obs.jsonl'
 OBS_CMD = 'obs-cmd.txt'
@@ -829,7 +829,7 @@ def _sig_readded(w):
 
 
 SIGNATURES = {'changed-empty-on-false-uptodate': _sig_false_uptodate,
-              'readded-dep-stale-state': _sig_readded}
+              }
 
 
 # ----------------------------------------------------------------------------------------------
